@@ -19,7 +19,7 @@ BLOCK = 40
 STREAM_ORDER = ['sched', 'preempt', 'faults', 'time', 'script', 'cfg']
 RULE = ('the real AsyncRunner and Interpreter run on real OS threads under a baton-passing scheduler: a runner thread and 1-3 client threads '
         'with drawn scripts over queue(uid), queue(uid, delay), pause, unpause, sleep, ending with stop() - in some runs a second client calls stop() as well - (or with an event that makes the '
-        'statechart final followed by wait(), after which in half of those runs another event is queued and a second runner is started on the final interpreter and must execute nothing); one run in thirteen stops and waits for a runner that was never started; in a fifth of the runs the before_run hook pauses the runner, in a quarter the other clients are already at work while start() is called; runner knobs (interval in {0, 1/16, 1}, execute_all) drawn per run. The seeded scheduler decides '
+        'statechart final followed by wait(), after which in half of those runs another event is queued and a second runner is started on the final interpreter and must execute nothing); one run in thirteen stops and waits for a runner that was never started; in a fifth of the runs the before_run hook pauses the runner, in some the after_execute hook of a drawn cycle does, in a quarter the other clients are already at work while start() is called; runner knobs (interval in {0, 1/16, 1}, execute_all) drawn per run. The seeded scheduler decides '
         'every context switch at fake threading/time primitives and - in the fine configuration - at LINE events inside Interpreter._queue_event '
         '/ _select_event / execute_once / _KeyifyList.__getitem__ and the AsyncRunner methods; it injects thread stalls, wall-clock jumps seen '
         'by time.time(), and sleep overshoot. History checks (events stamped with a global sequence number): executed steps (listener ground '
@@ -118,6 +118,9 @@ def run(ch, tier):
     second_runner = ending == 'final-wait' and cs.flag(1, 2)
     pause_in_hook = cs.flag(1, 5)
     early_clients = cs.flag(1, 4)      # the other clients are already at work while start() is called
+    # the runner pauses itself from after_execute at the end of its k-th cycle (only when a client ends the run with stop(),
+    # which releases a parked runner)
+    pause_in_cycle = cs.int(1, 4) if ending == 'stop' and cs.flag(1, 6) else 0
     maxops = 8 if tier == 'quick' else 12
     sched = Sched(ch, fine, density=density)
     sched.queue_codes = set(QUEUE_CODES)
@@ -159,6 +162,11 @@ def run(ch, tier):
 
         def after_execute(self, steps):
             sched.log('reported', tuple((ms.event.data.get('uid') if ms.event is not None else None) for ms in steps))
+            cycles[0] += 1
+            if cycles[0] == pause_in_cycle:
+                sched.log('pause-inv')
+                self.pause()
+                sched.log('pause-ret')
 
     class R2(R):
         """a second runner, started on the same interpreter once the first one has stopped by itself"""
@@ -179,6 +187,7 @@ def run(ch, tier):
     stop_invoked = [False]
     started = [False]       # start() has returned
     hook_done = [False]     # before_run has run (with its pause(), if any)
+    cycles = [0]
 
     def draw_script(main):
         ops = []
@@ -331,6 +340,7 @@ def run(ch, tier):
     res.stats['runs_with_pending_delayed_internal_event'] += int(watchdog)
     res.stats['runs_with_a_second_runner_started_on_the_final_statechart'] += int(any(e[2] == 'start2-inv' for e in sched.events))
     res.stats['runs_pausing_from_before_run'] += int(pause_in_hook)
+    res.stats['runs_pausing_from_after_execute'] += int(bool(pause_in_cycle and cycles[0] >= pause_in_cycle))
     res.stats['runs_with_clients_at_work_before_start'] += int(early_clients and nclients > 1)
     res.stats['runs_in_which_two_clients_call_stop'] += int(any(o[0] == 'stop' for sc2 in scripts for o in sc2))
     res.sim_time = sched.now - 1000.0
